@@ -1,3 +1,5 @@
+use crate::object::Error;
+
 pub(crate) struct SymbolTable {
     /// A vector of contexts
     /// The context at index 0 will always be the global context,
@@ -46,15 +48,20 @@ impl Context {
     }
 
     /// Defines a new symbol in the current context its inner-most scope.
-    fn define(&mut self, name: &str) -> Symbol {
+    fn define(&mut self, name: &str) -> Result<Symbol, Error> {
+        // Symbols are addressed using 16-bit indices
+        let index = self.total_len().try_into().map_err(|_| {
+            Error::SyntaxError("te veel variabelen voor de virtuele machine".to_string())
+        })?;
+
         let current_scope = self.symbols.last_mut().unwrap();
         current_scope.push(name.to_string());
         self.max_size += 1;
 
-        Symbol {
-            index: (self.total_len() - 1).try_into().unwrap(),
+        Ok(Symbol {
+            index,
             scope: self.scope,
-        }
+        })
     }
 
     /// Resolves a symbol in this context along with its absolute index (relative to the context its top scope)
@@ -117,7 +124,7 @@ impl SymbolTable {
     }
 
     /// Define a symbol in the current context (and current scope within that context).
-    pub fn define(&mut self, name: &str) -> Symbol {
+    pub fn define(&mut self, name: &str) -> Result<Symbol, Error> {
         self.current_context().define(name)
     }
 
